@@ -1,8 +1,7 @@
 (* C01 - what the mirror encoders emit are bytes (0..255): the round-trip theorems are about streams
-   that can be put on the wire.  Proved here for Raw (also encoding -1), RRE, CoRRE, Hextile, Zlib and Ultra
-   (payload before compression) and the rectangle header; NOT proved for ZRLE and Tight (tested: the
-   driver prints the payloads as two hex digits per item, and the implementation's stream is compared
-   with it byte for byte). *)
+   that can be put on the wire.  Here: Raw (also encoding -1), RRE, CoRRE, Hextile, Zlib and Ultra
+   (payload before compression) and the rectangle header; ZRLE in ZRLETotal.v, Tight in TightTotal.v,
+   all encodings of send_rect together in SendAll.v. *)
 From Coq Require Import ZArith List Lia Bool Arith.
 From LV Require Import Enc.EncBase Enc.EncBaseProofs Enc.Subrect Enc.SubrectProofs Enc.Raw Enc.RRE Enc.Hextile
   Enc.RawRREProofs Enc.HextileProofs Enc.Zlib Enc.ZRLE Enc.Update Enc.UpdateProofs Gen.Consts_C01.
